@@ -69,6 +69,7 @@ ASSUMPTIONS = [
     "reading: the fingerprint pair is compared with the helper's default infer_redirection=True (fingerprint_url always infers); with False only on URLs carrying no redirection",
     "reading: bare hostname = no character of '/?#@:[]%' and no control character (surrounding whitespace allowed); the URL functions are applied to the bare string itself (they add the scheme), with infer_redirection off where the option exists",
     "reading: 'minus the scheme stem when the scheme was stripped' = when the result tuple has an empty scheme",
+    "reading: the stems clause is demanded for URLs in which the parser finds a (non-empty) host: lru_stems of a hostless result such as 'custom:/path' (urlunsplit drops '//' for a scheme outside uses_netloc) puts a protocol in front of it and reads 'custom' as the host — that is lru_stems/ensure_protocol on hostless URLs (outside C12's grammar too), not a disagreement between the variant and the URL function; a hostless *result* of a URL with a host ('http://www./x', 'http://com/x' with strip_suffix) is inside",
 ]
 UNPROVED = (
     "the URL-level equations (normalized_hostname_agrees, fingerprinted_hostname_agrees, bare_hostname_agrees_url) hold under per-input hypotheses about CPython's parser "
@@ -207,7 +208,7 @@ def oracle_url(case):
                         "[normalize-host] get_normalized_hostname(%r, normalize_amp=%r, infer_redirection=%r) = %r but normalize_url gives %r whose host is %r"
                         % (u, amp, inf, h, n, want)
                     )
-        if not isinstance(n, _Exc):
+        if not isinstance(n, _Exc) and raw_host(u, inf):
             x = _g(normalized_lru_stems, u, suffix_aware=sa, normalize_amp=amp, infer_redirection=inf)
             y = _g(lru_stems, n, suffix_aware=sa)
             if not isinstance(y, _Exc) and not t.scheme:
@@ -233,7 +234,7 @@ def oracle_url(case):
                         "[fingerprint-host] get_fingerprinted_hostname(%r, infer_redirection=%r, strip_suffix=%r) = %r but fingerprint_url gives %r whose host is %r"
                         % (u, inf, ss, h, n, want)
                     )
-        if not isinstance(n, _Exc):
+        if not isinstance(n, _Exc) and raw_host(u.lower(), True):
             x = _g(fingerprinted_lru_stems, u, suffix_aware=sa, strip_suffix=ss)
             y = _g(lru_stems, n, suffix_aware=sa)
             if not isinstance(y, _Exc) and not t.scheme:
@@ -246,7 +247,7 @@ def oracle_url(case):
 
     # --- canonicalized stems
     c = _g(canonicalize_url, u)
-    if not isinstance(c, _Exc):
+    if not isinstance(c, _Exc) and raw_host(u, False):
         x = _g(canonicalized_lru_stems, u, suffix_aware=sa)
         y = _g(lru_stems, c, suffix_aware=sa)
         if isinstance(x, _Exc) or isinstance(y, _Exc) or list(x) != list(y):
@@ -396,6 +397,13 @@ def model_lags(u):
     return False
 
 
+_tags = {}
+
+
+def _key(case):
+    return (case["url"], case["amp"], case["infer"], case["ss"], case["sa"])
+
+
 def url_ops(case):
     lib.ural()
     u, amp, inf, ss, sa = case["url"], case["amp"], case["infer"], case["ss"], case["sa"]
@@ -412,6 +420,12 @@ def url_ops(case):
     add("gfh", nc.get_fingerprinted_hostname_op(u, infer_redirection=inf, strip_suffix=ss))
     tup = _real_tuples(case)
     strs = _strings(case)
+    # the URL functions themselves (tuple and string): shared lines of norm_common
+    o = {"normalize_amp": amp, "infer_redirection": inf}
+    for i, l in enumerate(nc.ops(u, o)):
+        add("norm:%d" % i, l)
+    for i, l in enumerate(nc.fp_ops(u, strip_suffix=ss)):
+        add("fp:%d" % i, l)
     # hostname component of the URL functions
     add("host_norm", _norm_line("c07_host", u, amp, inf, {"fn": "norm"}))
     l = _fp_line("c07_host", u, ss, {"fn": "fp"})
@@ -442,7 +456,7 @@ def url_ops(case):
                           "puny": nc._host_puny(raw_host(u, inf) or "")})
     # hypotheses of the theorems, evaluated on this case
     add("assume", {"f": "c07_true"})
-    case["_tags"] = tags
+    _tags[_key(case)] = tags
     return ops
 
 
@@ -506,8 +520,14 @@ def url_impl(case):
     tup = _real_tuples(case)
     strs = _strings(case)
     out = []
-    for tag in case.get("_tags") or _tags_of(case):
-        if tag == "gnh":
+    if len(_tags) > 20000:
+        _tags.clear()
+    for tag in _tags.pop(_key(case), None) or _tags_of(case):
+        if tag.startswith("norm:"):
+            out.append(nc.impl(u, {"normalize_amp": amp, "infer_redirection": inf})[int(tag[5:])])
+        elif tag.startswith("fp:"):
+            out.append(nc.fp_impl(u, strip_suffix=ss)[int(tag[3:])])
+        elif tag == "gnh":
             out.append(nc.get_normalized_hostname_impl(u, normalize_amp=amp, infer_redirection=inf))
         elif tag == "gfh":
             out.append(nc.get_fingerprinted_hostname_impl(u, infer_redirection=inf, strip_suffix=ss))
@@ -564,9 +584,8 @@ def _fp_tuple(u, ss):
 
 
 def _tags_of(case):
-    c = dict(case)
-    url_ops(c)
-    return c.get("_tags", [])
+    url_ops(case)
+    return _tags.pop(_key(case), [])
 
 
 def host_ops(case):
@@ -640,7 +659,7 @@ CORPUS_URLS = [
     # KF-C07-1 .. 3
     "http://%s.fr/" % AMP_PUNY, "%s.fr" % AMP_PUNY, "http://www.%s.fr/" % AMP_PUNY, "http://a.%s.fr/" % AMP_PUNY,
     "http://a.com/?url=HTTP%3A%2F%2Fb.com", "http://a.com/?url=HTTP%3A%2F%2Fwww.B.com%2Fx", "http://a.com/?URL=http%3A%2F%2Fb.com",
-    "http:///path", "/ /[", "http://?a=1", "http:path", "///x", "//", "http://",
+    "http:///path", "/ /[", "http://?a=1", "http:path", "///x", "//", "http://", "http://www./x", "http://m./", "www.", "http://www.com/x?a=1", "custom:///path",
     # redirect-carrying
     "http://a.com/?url=http%3A%2F%2Fwww.b.com%2Fp", "https://www.google.com/url?q=https://m.b.com/x/&sa=D", "a.com?url=/z",
     "l.facebook.com/l.php?u=http%3A%2F%2Ffr.b.co.uk%2Findex.html", "https://cdn.ampproject.org/c/s/www.b.com/a/amp/",
